@@ -328,6 +328,9 @@ func NewEnv(tr *vtrace.Tracer, o EnvOpts) (*Env, error) {
 	return e, nil
 }
 
+// PeekTok returns the last call token handed out.
+func (e *Env) PeekTok() uint64 { return atomic.LoadUint64(&e.tok) }
+
 // NextTok returns a fresh call token.
 func (e *Env) NextTok() uint64 { return atomic.AddUint64(&e.tok, 1) }
 
